@@ -288,6 +288,18 @@ func recoverImage(img *vos.FS, cfg dbCfg, prev time.Time, class int, exp crashEx
 		if !readAll("recovered", nil) {
 			return
 		}
+		// a recovered store that is closed again without a single write must still hold everything
+		db.Close()
+		vos.MarkEvent("idle-closed")
+		setRecoveryClock(vtime.Now(), (class+1)%3)
+		db, err = originium.Open("/d", cfg.config())
+		if err != nil {
+			fail("open-error", "Open after recovery + Close without writes returned %v", err)
+			return
+		}
+		if !readAll("after-idle-close-reopen", nil) {
+			return
+		}
 		if atomicity {
 			for ti, inf := range exp.inflight {
 				nNew, nTot := 0, 0
